@@ -89,3 +89,41 @@ pub proof fn lemma_div_euclid_fits(a: int, b: int)
         assert(q != -a) by (nonlinear_arith) requires q * b + r == a, 0 <= r < vx_abs(b), b != 0, b != -1, a < -1;
     }
 }
+// ---- powers beyond u32 (C13: exact whenever the result fits — only 0, 1 and -1 qualify)
+pub proof fn lemma_pow_zero(e: nat) requires e > 0 ensures vx_pow(0, e) == 0 {}
+pub proof fn lemma_pow_one(e: nat) ensures vx_pow(1, e) == 1 decreases e { if e > 0 { lemma_pow_one((e - 1) as nat); } }
+pub proof fn lemma_pow_neg_one(e: nat)
+    ensures vx_pow(-1, e) == (if e % 2 == 0 { 1int } else { -1int })
+    decreases e
+{
+    if e > 0 { lemma_pow_neg_one((e - 1) as nat); }
+}
+pub open spec fn iabs(x: int) -> int { if x < 0 { -x } else { x } }
+pub proof fn lemma_pow_abs_ge(a: int, e: nat)
+    requires iabs(a) >= 2
+    ensures iabs(vx_pow(a, e)) >= vx_pow(2, e), vx_pow(2, e) >= 1
+    decreases e
+{
+    if e > 0 {
+        lemma_pow_abs_ge(a, (e - 1) as nat);
+        let x = vx_pow(a, (e - 1) as nat);
+        assert(iabs(a * x) == iabs(a) * iabs(x)) by(nonlinear_arith);
+        assert(iabs(a) * iabs(x) >= 2 * iabs(x)) by(nonlinear_arith) requires iabs(a) >= 2, iabs(x) >= 0;
+    }
+}
+pub proof fn lemma_pow2_mono(e: nat, f: nat)
+    requires e <= f
+    ensures vx_pow(2, e) <= vx_pow(2, f), vx_pow(2, e) >= 1
+    decreases f
+{
+    if e < f { lemma_pow2_mono(e, (f - 1) as nat); }
+    else { lemma_pow_abs_ge(2, e); }
+}
+pub proof fn lemma_pow_beyond_u32_overflows(a: int, e: nat)
+    requires iabs(a) >= 2, e >= 128
+    ensures !fits(vx_pow(a, e))
+{
+    lemma_pow_abs_ge(a, e);
+    lemma_pow2_mono(128, e);
+    assert(vx_pow(2, 128) == 0x1_0000_0000_0000_0000_0000_0000_0000_0000) by(compute);
+}
